@@ -256,8 +256,8 @@ def q_rebind(tier='quick'):
 
 # ------------------------------------------------------------------------------------------------ C10: namespaces
 
-ADV_URIS = ['http://example.com/v1/types', 'http://example.com/v2/types', 'http://example.com/v3/Types', 'http://example.com/typ', 'urn:example:types',
-            'http://example.com/api/v11', 'http://example.com/api/v1', 'http://example.com/services/zoë', 'http://example.com/types/', 'http://example.com/my-types', 'http://example.com/t.y.p.e', 'http://example.com/v1/messages']
+ADV_URIS = ['http://example.com/v1/types', 'http://example.com/v2/types', 'http://example.com/v3/Types', 'http://example.com/typ', 'http://example.com/services/zoë',
+            'http://example.com/api/v11', 'http://example.com/api/v1', 'urn:example:types', 'http://example.com/types/', 'http://example.com/my-types', 'http://example.com/t.y.p.e', 'http://example.com/v1/messages']
 
 
 def n_namespaces(tier='quick'):
